@@ -54,6 +54,7 @@ func (c *ctx) chunkStreamFacts() {
 	fd := c.funcDecl(c.files, "", "ChunkStream")
 	recordKey, recordRow, storeArg, resultsAssign, job, nextCall, finalMake, finalLoop, indexChunks := "", "", "", "", "", "", "", "", ""
 	recordUncond, storeErrReturned, numAfterSend, numStartsAtZero, noSkips := false, false, false, false, true
+	counterName := ""
 	if fd != nil {
 		// recordResult := func(num int, r IndexChunk) { … results[num] = r }
 		walk(fd.Body, func(n ast.Node) bool {
@@ -90,6 +91,11 @@ func (c *ctx) chunkStreamFacts() {
 			}
 			defs := map[string]ast.Expr{}
 			count := map[string]int{}
+			// the loop variable is called `j` in the facts, whatever its name in the source
+			if id, ok := rs.Key.(*ast.Ident); ok && rs.Value == nil {
+				defs[id.Name] = &ast.Ident{Name: "j"}
+				count[id.Name] = 1
+			}
 			for _, st := range rs.Body.List {
 				if as, ok := st.(*ast.AssignStmt); ok && as.Tok == token.DEFINE && len(as.Lhs) == len(as.Rhs) {
 					for i, l := range as.Lhs {
@@ -140,16 +146,26 @@ func (c *ctx) chunkStreamFacts() {
 				return true
 			}
 			sawSelect := false
+			// names are positional in the facts: $1,$2,$3 = the results of the chunker's Next(), $n = the counter that is
+			// incremented after the send, `chunker` = the receiver of Next()
+			names := map[string]ast.Expr{}
+			var sendVal ast.Expr
 			for _, st := range fs.Body.List {
 				switch t := st.(type) {
 				case *ast.AssignStmt:
 					if len(t.Rhs) == 1 {
 						if call, ok := t.Rhs[0].(*ast.CallExpr); ok && shortCall(call) == "Next" {
-							l := []string{}
-							for _, x := range t.Lhs {
-								l = append(l, exprString(x))
+							for i, x := range t.Lhs {
+								if id, ok := x.(*ast.Ident); ok {
+									names[id.Name] = &ast.Ident{Name: fmt.Sprintf("$%d", i+1)}
+								}
 							}
-							nextCall = strings.Join(l, ",") + ":=" + exprString(call)
+							nextCall = fmt.Sprintf("%d results:=chunker.Next()", len(t.Lhs))
+							if sel, ok := call.Fun.(*ast.SelectorExpr); ok {
+								if id, ok := sel.X.(*ast.Ident); !ok || !isParam(fd, id.Name) {
+									nextCall = "?"
+								}
+							}
 						}
 					}
 				case *ast.SelectStmt:
@@ -157,14 +173,19 @@ func (c *ctx) chunkStreamFacts() {
 					for _, cl := range t.Body.List {
 						cc := cl.(*ast.CommClause)
 						if send, ok := cc.Comm.(*ast.SendStmt); ok {
-							job = substString(send.Value, nil, 0)
+							sendVal = send.Value
 						}
 					}
 				case *ast.IncDecStmt:
-					if t.Tok == token.INC && exprString(t.X) == "num" {
-						numAfterSend = sawSelect
+					if id, ok := t.X.(*ast.Ident); ok && t.Tok == token.INC && sawSelect {
+						numAfterSend = true
+						counterName = id.Name
+						names[id.Name] = &ast.Ident{Name: "$n"}
 					}
 				}
+			}
+			if sendVal != nil {
+				job = substString(sendVal, names, 0)
 			}
 			return true
 		})
@@ -172,7 +193,7 @@ func (c *ctx) chunkStreamFacts() {
 			if ds, ok := n.(*ast.DeclStmt); ok {
 				if gd, ok := ds.Decl.(*ast.GenDecl); ok {
 					for _, sp := range gd.Specs {
-						if vs, ok := sp.(*ast.ValueSpec); ok && len(vs.Names) == 1 && vs.Names[0].Name == "num" && len(vs.Values) == 0 {
+						if vs, ok := sp.(*ast.ValueSpec); ok && len(vs.Names) == 1 && vs.Names[0].Name == counterName && counterName != "" && len(vs.Values) == 0 {
 							numStartsAtZero = true
 						}
 					}
@@ -184,11 +205,37 @@ func (c *ctx) chunkStreamFacts() {
 					finalMake = exprString(call)
 				}
 			}
-			// for i := 0; i < len(results); i++ { chunks[i] = results[i] }
-			if fs, ok := n.(*ast.ForStmt); ok && fs.Cond != nil && fs.Init != nil && len(fs.Body.List) == 1 {
-				if as, ok := fs.Body.List[0].(*ast.AssignStmt); ok && len(as.Lhs) == 1 && len(as.Rhs) == 1 {
-					finalLoop = exprString(fs.Init.(*ast.AssignStmt).Lhs[0]) + ":=" + exprString(fs.Init.(*ast.AssignStmt).Rhs[0]) + ";" +
-						exprString(fs.Cond) + ";" + exprString(as.Lhs[0]) + "=" + exprString(as.Rhs[0])
+			// for i := 0; i < len(results); i++ { chunks[i] = results[i] }   or   for i := range chunks { chunks[i] = results[i] }
+			// (chunks has len(results) elements): both are "every k below len(results): chunks[k] = results[k]"
+			copyBody := func(body *ast.BlockStmt, iv string) (dst, src string, ok bool) {
+				if len(body.List) != 1 {
+					return "", "", false
+				}
+				as, isAs := body.List[0].(*ast.AssignStmt)
+				if !isAs || len(as.Lhs) != 1 || len(as.Rhs) != 1 {
+					return "", "", false
+				}
+				l, lok := as.Lhs[0].(*ast.IndexExpr)
+				r, rok := as.Rhs[0].(*ast.IndexExpr)
+				if !lok || !rok || exprString(l.Index) != iv || exprString(r.Index) != iv {
+					return "", "", false
+				}
+				return exprString(l.X), exprString(r.X), true
+			}
+			if fs, ok := n.(*ast.ForStmt); ok && fs.Cond != nil && fs.Init != nil && fs.Post != nil {
+				if init, ok := fs.Init.(*ast.AssignStmt); ok && len(init.Lhs) == 1 && exprString(init.Rhs[0]) == "0" {
+					iv := exprString(init.Lhs[0])
+					if dst, src, ok := copyBody(fs.Body, iv); ok && exprString(fs.Cond) == iv+"<len("+src+")" {
+						if inc, ok := fs.Post.(*ast.IncDecStmt); ok && inc.Tok == token.INC && exprString(inc.X) == iv {
+							finalLoop = "every k<len(" + src + "): " + dst + "[k]=" + src + "[k]"
+						}
+					}
+				}
+			}
+			if rs, ok := n.(*ast.RangeStmt); ok && rs.Value == nil && rs.Key != nil {
+				iv := exprString(rs.Key)
+				if dst, src, ok := copyBody(rs.Body, iv); ok && exprString(rs.X) == dst && finalMake == "make([]IndexChunk,len("+src+"))" {
+					finalLoop = "every k<len(" + src + "): " + dst + "[k]=" + src + "[k]"
 				}
 			}
 			if kv, ok := n.(*ast.KeyValueExpr); ok && exprString(kv.Key) == "Chunks" {
@@ -212,4 +259,16 @@ func (c *ctx) chunkStreamFacts() {
 		finalMake, finalLoop, indexChunks, quoteList([]string{finalMake, finalLoop, indexChunks}))
 	c.facts["chunkStream"] = map[string]any{"recordKey": recordKey, "recordRow": recordRow, "storeArg": storeArg, "job": job,
 		"next": nextCall, "assemble": []string{finalMake, finalLoop, indexChunks}}
+}
+
+// isParam: name is a parameter of fd
+func isParam(fd *ast.FuncDecl, name string) bool {
+	for _, f := range fd.Type.Params.List {
+		for _, n := range f.Names {
+			if n.Name == name {
+				return true
+			}
+		}
+	}
+	return false
 }
